@@ -433,33 +433,31 @@ async fn run_async(body: Body, rec: Arc<Rec>, op: OpId, st: Arc<ObjState>, name:
 /// A world: the recorder plus the objects of one execution
 pub struct World {
     pub rec: Arc<Rec>,
-    pub objs: StdMutex<Vec<Obj>>,
+    next_id: AtomicUsize,
+    pub objs: StdMutex<Vec<Arc<ObjState>>>,
     pub payload_drops: Arc<AtomicUsize>,
 }
 
 impl World {
     pub fn new() -> Arc<World> {
-        Arc::new(World { rec: Rec::new(), objs: StdMutex::new(vec![]), payload_drops: Arc::new(AtomicUsize::new(0)) })
+        Arc::new(World { rec: Rec::new(), next_id: AtomicUsize::new(0), objs: StdMutex::new(vec![]), payload_drops: Arc::new(AtomicUsize::new(0)) })
     }
 
     pub fn raw(&self) -> Obj {
         let mut objs = self.objs.lock().unwrap();
-        let st = Arc::new(ObjState { id: objs.len(), occ: AtomicUsize::new(0), dead: AtomicUsize::new(0) });
-        let o = Obj::Raw(scheduler::queue(), st);
-        objs.push(o.clone());
-        o
+        let st = Arc::new(ObjState { id: self.next_id.fetch_add(1, AO::SeqCst), occ: AtomicUsize::new(0), dead: AtomicUsize::new(0) });
+        objs.push(st.clone());
+        Obj::Raw(scheduler::queue(), st)
     }
 
     pub fn new_payload(&self) -> (Payload, Arc<ObjState>) {
-        let mut objs = self.objs.lock().unwrap();
-        let st = Arc::new(ObjState { id: objs.len(), occ: AtomicUsize::new(0), dead: AtomicUsize::new(0) });
-        // placeholder so that ids stay unique
-        objs.push(Obj::Raw(scheduler::queue(), st.clone()));
+        let st = Arc::new(ObjState { id: self.next_id.fetch_add(1, AO::SeqCst), occ: AtomicUsize::new(0), dead: AtomicUsize::new(0) });
         (Payload { canary: CANARY, st: st.clone(), drops: self.payload_drops.clone(), log: vec![], boxed: Box::new(CANARY) }, st)
     }
 
     pub fn desync_obj(&self) -> Obj {
         let (p, st) = self.new_payload();
+        self.objs.lock().unwrap().push(st.clone());
         Obj::D(Arc::new(Desync::new(p)), st)
     }
 
@@ -692,9 +690,9 @@ impl World {
         self.rec.check_once();
         self.rec.check_order();
         let objs = self.objs.lock().unwrap().clone();
-        for o in &objs {
-            if o.st().occupancy() != 0 {
-                rt::violation(format!("UNFINISHED object {} still has an operation inside at quiescence", o.id()));
+        for st in &objs {
+            if st.occupancy() != 0 {
+                rt::violation(format!("UNFINISHED object {} still has an operation inside at quiescence", st.id));
             }
         }
     }
@@ -753,6 +751,11 @@ impl FdHandle {
     }
     pub fn detach(mut self) {
         self.fut.take().unwrap().detach();
+    }
+    /// awaits without judging the result (the operation is expected to panic)
+    pub fn wait_any(mut self) {
+        let f = self.fut.take().unwrap();
+        let _ = block_on(f);
     }
     /// polls `k` times with a waker that only counts, then drops the future
     pub fn poll_then_drop(mut self, k: usize) {
@@ -1074,9 +1077,14 @@ pub fn join(h: vthread::JoinHandle<()>, what: &str) {
 
 /// Reports every panic of this execution that is not a planned one
 pub fn check_no_unplanned_panics() {
+    check_no_unplanned_panics_except(&[]);
+}
+
+pub fn check_no_unplanned_panics_except(allowed: &[&str]) {
     for p in rt::panics() {
-        if !p.message.starts_with("PLANNED-PANIC") && !p.message.starts_with("vsched: thread body panicked") {
-            rt::violation(format!("PANIC on t{}[{}]: {} @{}", p.thread, p.thread_name.as_deref().unwrap_or("-"), p.message, p.location));
+        if p.message.starts_with("PLANNED-PANIC") || p.message.starts_with("vsched: thread body panicked") || allowed.iter().any(|a| p.message.contains(a)) {
+            continue;
         }
+        rt::violation(format!("PANIC on t{}[{}]: {} @{}", p.thread, p.thread_name.as_deref().unwrap_or("-"), p.message, p.location));
     }
 }
